@@ -49,14 +49,23 @@ TOPOLOGIES = {
     # lower-case directory: its policy file does not exist at first (the
     # first 'edit' creates it)
     't1absent': [('n', False, False)],
+    # 'silent' topologies add the op sedit: the file is rewritten WITHOUT any
+    # modification time advancing (cp -p, rsync -t); only a forced reload
+    # has to notice that.  'PD...': no main policy file, the rules live in
+    # a policy directory
+    't1silent': [('A', False, False)],
+    't1silentdir': [('PD', False, False)],
+    't2silentdir': [('PD', False, False), ('PD', True, False)],
     't2absent': [('A', False, False), ('n', True, False)],
 }
 BOUNDS = {
     'quick': [('t1', 8), ('t1late', 8), ('t2own', 6), ('t2shared', 8),
-              ('t2late', 6), ('t3', 4), ('t1absent', 7), ('t2absent', 5)],
+              ('t2late', 6), ('t3', 4), ('t1absent', 7), ('t2absent', 5), ('t1silent', 6),
+              ('t1silentdir', 6), ('t2silentdir', 4)],
     'thorough': [('t1', 12), ('t1late', 12), ('t2own', 14), ('t2shared', 14),
                  ('t2late', 14), ('t3', 8), ('t1absent', 12),
-                 ('t2absent', 10)],
+                 ('t2absent', 10), ('t1silent', 12), ('t1silentdir', 12),
+                 ('t2silentdir', 8)],
 }
 
 
@@ -93,10 +102,15 @@ def snap_shared(shared):
     return out
 
 
+def rel_of(d):
+    return '%s/pd/o.yaml' % d if d.startswith('P') else '%s/policy.yaml' % d
+
+
 class System:
     def __init__(self, topo):
         from oslo_policy import policy as P
         self.P = P
+        self.silent_ops = 'silent' in topo
         self.topo = TOPOLOGIES[topo]
         self.w = world.FileWorld()
         self.shared = shared_defaults(P)
@@ -108,11 +122,17 @@ class System:
                 if d.islower():
                     self.content[d] = None
                     continue
-                self.w.write('%s/policy.yaml' % d,
+                if d.startswith('P'):
+                    self.w.mkdir('%s/pd' % d)
+                self.w.write(rel_of(d),
                              world.dumps_policy(FILES['x0'], 'json'))
                 self.content[d] = 'x0'
         self.enfs = []
         self.registered = []
+        # stale_ok[i]: enforcer i's files were rewritten silently and it has
+        # not force-reloaded since - an ordinary load may legitimately still
+        # show the previous content
+        self.stale_ok = [False] * len(self.topo)
         for d, end, late in self.topo:
             e = self.make(d, end)
             if not late:
@@ -121,7 +141,8 @@ class System:
             self.registered.append(not late)
 
     def make(self, d, end):
-        conf = world.new_conf(self.w.path(d), policy_dirs=[],
+        conf = world.new_conf(self.w.path(d),
+                              policy_dirs=['pd'] if d.startswith('P') else [],
                               enforce_new_defaults=end)
         e = self.P.Enforcer(conf)
         e.suppress_deprecation_warnings = True
@@ -132,6 +153,8 @@ class System:
         for i, (d, end, late) in enumerate(self.topo):
             ops += ['e%d:load' % i, 'e%d:force' % i, 'e%d:enforce' % i,
                     'e%d:edit' % i]
+            if self.silent_ops and self.content[d] is not None:
+                ops.append('e%d:sedit' % i)
             if late and not self.registered[i]:
                 ops.append('e%d:register' % i)
         return ops
@@ -157,14 +180,27 @@ class System:
             loaded = True
         elif kind == 'force':
             enf.load_rules(force_reload=True)
+            self.stale_ok[i] = False
             loaded = True
         elif kind == 'enforce':
             enf.enforce('svc:new', {}, {'roles': ['dn']})
             loaded = True
         elif kind == 'edit':
             nxt = 'x1' if self.content[d] == 'x0' else 'x0'
-            self.w.write('%s/policy.yaml' % d, world.dumps_policy(FILES[nxt], 'json'))
+            self.w.write(rel_of(d), world.dumps_policy(FILES[nxt], 'json'))
             self.content[d] = nxt
+            for j, (dj, _, _) in enumerate(self.topo):
+                if dj == d:
+                    self.stale_ok[j] = False
+        elif kind == 'sedit':
+            nxt = 'x1' if self.content[d] == 'x0' else 'x0'
+            with open(self.w.path(rel_of(d)), 'w') as f:
+                f.write(world.dumps_policy(FILES[nxt], 'json'))
+            self.w._apply()           # every recorded time stays as it was
+            self.content[d] = nxt
+            for j, (dj, _, _) in enumerate(self.topo):
+                if dj == d:
+                    self.stale_ok[j] = True
         elif kind == 'register':
             enf.register_defaults(self.shared)
             self.registered[i] = True
@@ -174,7 +210,7 @@ class System:
             j for j, e in enumerate(self.enfs)
             if j != i and c10.printed(e.rules) != before[j]],
             'shared_changed': snap_shared(self.shared) != self.snap0}
-        if loaded:
+        if loaded and not self.stale_ok[i]:
             fresh = self.make(d, end)
             if self.registered[i]:
                 # brand-new default objects: nothing any enforcer did to the
@@ -193,7 +229,7 @@ class System:
             if cid is None:
                 files[d] = (None, None)
                 continue
-            t = os.path.getmtime(self.w.path('%s/policy.yaml' % d))
+            t = os.path.getmtime(self.w.path(rel_of(d)))
             files[d] = (cid, t)
             times.add(t)
         fps = [c10.fingerprint(vars(e), self.w.root, times, skip=('conf',))
@@ -202,7 +238,7 @@ class System:
         form = {'files': {d: [c, None if t is None else rank[t]]
                           for d, (c, t) in files.items()},
                 'enfs': [c10.rerank(fp, rank) for fp in fps],
-                'registered': self.registered,
+                'registered': self.registered, 'stale_ok': self.stale_ok,
                 'shared': [s[:3] + s[4:6] for s in snap_shared(self.shared)]}
         return histbfs.digest(form)
 
